@@ -39,7 +39,7 @@ var ProfValid = Profile{Name: "valid", MaxOps: 6, WInsert: 30, WUpdate: 20, WMut
 var ProfFail = Profile{Name: "fail", MaxOps: 6, WInsert: 30, WUpdate: 20, WMutate: 25, WDelete: 10, WSelect: 5, WWait: 2, FailPermil: 450, BadCommit: 350, Named: 300, ExplicitID: 1000, SameRow: 300, Compose: 500, MaxRows: 7}
 var ProfSameRow = Profile{Name: "samerow", MaxOps: 7, WInsert: 15, WUpdate: 30, WMutate: 35, WDelete: 12, WSelect: 3, WWait: 0, FailPermil: 0, BadCommit: 0, Named: 200, ExplicitID: 600, SameRow: 850, Compose: 500, MaxRows: 6}
 var ProfNamed = Profile{Name: "named", MaxOps: 7, WInsert: 45, WUpdate: 20, WMutate: 25, WDelete: 5, WSelect: 5, WWait: 0, FailPermil: 0, BadCommit: 30, Named: 900, ExplicitID: 400, SameRow: 300, Compose: 800, MaxRows: 7, DupName: 60}
-var ProfRefs = Profile{Name: "refs", MaxOps: 6, WInsert: 35, WUpdate: 20, WMutate: 25, WDelete: 18, WSelect: 2, WWait: 0, FailPermil: 0, BadCommit: 100, Named: 600, ExplicitID: 500, SameRow: 200, Compose: 850, MaxRows: 6}
+var ProfRefs = Profile{Name: "refs", MaxOps: 6, WInsert: 35, WUpdate: 20, WMutate: 25, WDelete: 18, WSelect: 2, WWait: 0, FailPermil: 0, BadCommit: 100, Named: 600, ExplicitID: 500, SameRow: 400, Compose: 850, MaxRows: 6}
 
 var ProfIndex = Profile{Name: "index", MaxOps: 4, WInsert: 35, WUpdate: 30, WMutate: 10, WDelete: 20, WSelect: 5, WWait: 0, FailPermil: 0, BadCommit: 0, Named: 200, ExplicitID: 700, SameRow: 300, Compose: 700, MaxRows: 6, IndexPlay: 650}
 
